@@ -165,7 +165,7 @@ def main():
                 chk.ok(oid, 'c_n(mu, gamma) = gamma^-3 [(1-mu)/(|a1| a1^n) + mu/(|a2| a2^n)] for n = 2..%d with the primaries at local x = a1 = %r, a2 = %r' % (N, a1, a2),
                        sample={'point': pname, 'a_large': repr(a1), 'a_small': repr(a2)})
             else:
-                chk.fail(oid, 'c_%d differs from the coefficient of the potential expansion' % bad[0], _replay_cn(pname), None)
+                chk.fail(oid, 'c_%d differs from the coefficient of the potential expansion' % bad[0], [_replay_cn(pname), _replay_general()], None)
         # ---- (3) the exact local Hamiltonian and the coordinate map (collinear)
         for pname, cls in (('L1', lib._L1DynamicsService), ('L2', lib._L2DynamicsService), ('L3', lib._L3DynamicsService)):
             svc = fake_service(cls, gamma=gam, mu=mu)
@@ -197,7 +197,7 @@ def main():
             else:
                 env = model_to_env(badc[0][2]) if badc[0][2] is not None else {}
                 chk.fail(oid, 'the Hamiltonian flow mapped through _local2synodic_collinear does not reproduce the CR3BP field: components %s differ, e.g. at %s' % (
-                    [b[0] for b in badc], fmt_env(env)), _replay_map(pname), env)
+                    [b[0] for b in badc], fmt_env(env)), [_replay_map(pname), _replay_general()], env)
             # (3b) H_loc - closed form is affine: all second derivatives vanish
             a1 = Sym.lift(tf._synodic2local_collinear(pt, np.array([-mu, 0, 0, 0, 0, 0]))[0])
             a2 = Sym.lift(tf._synodic2local_collinear(pt, np.array([1 - mu, 0, 0, 0, 0, 0]))[0])
@@ -224,7 +224,7 @@ def main():
             if nb == 0:
                 chk.ok(oid, 'E(local2synodic(c))/gamma^2 - [1/2|p|^2 + y p_x - x p_y - gamma^-3((1-mu)/r1 + mu/r2)] has identically vanishing Hessian (affine): the series of (1),(2) is the Taylor expansion of the exact local Hamiltonian from degree 2 on')
             else:
-                chk.fail(oid, '%d second derivatives of (exact local Hamiltonian - closed form) do not vanish: the polynomial is not the expansion of the mapped energy' % nb, _replay_map(pname), None)
+                chk.fail(oid, '%d second derivatives of (exact local Hamiltonian - closed form) do not vanish: the polynomial is not the expansion of the mapped energy' % nb, [_replay_map(pname), _replay_general()], None)
         # ---- triangular: assembly and map
         for sgn, nm in ((1, 'L4'), (-1, 'L5')):
             pt = Stub(mu=mu, dynamics=Stub(sign=sgn))
@@ -249,7 +249,7 @@ def main():
             if not badc:
                 chk.ok(oid, 'D(local2synodic) J grad (E o local2synodic) = CR3BP field (all 6 components)')
             else:
-                chk.fail(oid, 'the mapped Hamiltonian flow differs from the CR3BP field in components %s' % badc, _replay_map(nm), None)
+                chk.fail(oid, 'the mapped Hamiltonian flow differs from the CR3BP field in components %s' % badc, [_replay_map(nm), _replay_general()], None)
             # Taylor check of the assembled triangular polynomial against the exact mapped energy, degree by degree through the series identities:
             x, y, z, px, py, pz = X
             dS = (Fraction(1, 2), sgn * s3 / 2)
@@ -288,7 +288,7 @@ def main():
             if ok and nb == 0 and lin_ok:
                 chk.ok(oid, 'linear part vanishes identically (the origin is an equilibrium); assembled polynomial = kinetic + rotational + linear - (1-mu) sum A^S_n - mu sum A^J_n, and E o local2synodic minus that closed form is affine (Hessian identically 0)')
             else:
-                chk.fail(oid, 'assembly ok: %s (first difference %s); linear part vanishes: %s; non-vanishing second derivatives of (mapped energy - closed form): %d' % (ok, key, lin_ok, nb), _replay_lin(nm), None)
+                chk.fail(oid, 'assembly ok: %s (first difference %s); linear part vanishes: %s; non-vanishing second derivatives of (mapped energy - closed form): %d' % (ok, key, lin_ok, nb), [_replay_lin(nm), _replay_general()], None)
     st = chk.absorb(ex)
     chk.note('%d generic decisions; total %.1f s' % (st['generic_nonzero_notes'], time.time() - t0))
     snp.EXACT_SQRT[0] = False
@@ -334,9 +334,10 @@ from hiten.algorithms.dynamics.rtbp import _crtbp_accel
 from hiten.algorithms.polynomial.operations import _polynomial_evaluate, _polynomial_jacobian
 from hiten.algorithms.polynomial.base import _create_encode_dict_from_clmo, _init_index_tables
 from hiten.algorithms.hamiltonian.hamiltonian import _build_physical_hamiltonian_collinear, _build_physical_hamiltonian_triangular
-s = System.from_bodies("earth", "moon"); bad = {}
+bad = {}
 c0 = np.array([2.0, -1.0, 1.5, 1.0, -2.0, 1.0])
-for k in (1, 2, 3, 4, 5):
+for sname, s, k in [("earth-moon", System.from_bodies("earth", "moon"), k_) for k_ in (1, 2, 3, 4, 5)] + [("mu=0.3", System.from_mu(0.3), k_) for k_ in (1, 2, 3, 4, 5)]:
+  if True:
     p = s.get_libration_point(k); l2s = _local2synodic_collinear if k <= 3 else _local2synodic_triangular
     for N in (5, 8):
         psi, clmo = _init_index_tables(N); enc = _create_encode_dict_from_clmo(clmo)
@@ -353,8 +354,8 @@ for k in (1, 2, 3, 4, 5):
             errs.append(float(np.max(np.abs(D @ cdot - _crtbp_accel(l2s(p, c), s.mu)))))
         order = float(np.log2(errs[0] / max(errs[1], 1e-300)))
         # the field of a degree-N Hamiltonian is exact to degree N-1: the error is O(r^N)
-        if errs[1] > 1e-11 and order < N - 0.7: bad["L%d_degree_%d" % (k, N)] = "field error %.2e -> %.2e when the radius is halved: order %.2f instead of %d" % (errs[0], errs[1], order, N)
-        elif errs[1] > 1e-4: bad["L%d_degree_%d" % (k, N)] = "field error %.2e at the smaller radius" % errs[1]
+        if errs[1] > 1e-11 and order < N - 0.7: bad["%s_L%d_degree_%d" % (sname, k, N)] = "field error %.2e -> %.2e when the radius is halved: order %.2f instead of %d" % (errs[0], errs[1], order, N)
+        elif errs[1] > 1e-4: bad["%s_L%d_degree_%d" % (sname, k, N)] = "field error %.2e at the smaller radius" % errs[1]
 _verdict(bool(bad), **bad)
 '''
 
